@@ -111,6 +111,7 @@ PROFILES = {
         "enable_p": 0.3,
         "narrow_crit_p": 0.6,
         "max_samples": 10,
+        "interp_p": 0.4,
     },
     "c05": {
         "tasks": {"tracking": 1},
@@ -652,6 +653,10 @@ def make_plan(seed, run, profile_name, clean=None, force=None):
             gap = samples[i + 1]["t"] - samples[i]["t"]
             phase = rng.choice([gap // 2, gap // 3, rng.randrange(1, gap), 1, gap - 1])
         ticks.append((i, samples[i]["t"] + phase))
+        if interp and i + 1 < n and rng.random() < 0.35:
+            # the perception stack publishes faster than the annotation rate: one more message inside the same interval
+            gap = samples[i + 1]["t"] - samples[i]["t"]
+            ticks.append((i, samples[i]["t"] + max(phase + 1, rng.randrange(1, gap))))
     if rng.random() < 0.1 and n >= 2:
         rng.shuffle(ticks)  # a perception stack replayed out of order
 
